@@ -641,7 +641,19 @@ def c18_doc(c):
     deco = ['@pytest.fixture(scope="%s")' % SC[scope]] if kind == "fixture" else []
     if c.get("stacked"):
         deco = deco + ["@other.decorator(1)"]
-    params = ", ".join(declared)
+    pstyle = c.get("pstyle", "plain")
+
+    def spell(ps):
+        if not ps or pstyle == "plain":
+            return list(ps)
+        if pstyle == "posonly":
+            return list(ps) + ["/"]
+        if pstyle == "kwonly":
+            return ["*"] + list(ps)
+        if pstyle == "annotated":
+            return ["%s: int" % x for x in ps]
+        return ["%s=None" % x for x in ps]
+    params = ", ".join(spell(declared))
     tail = ["", "", "x_after = 1", ""]
     cur = None
     if role in ("module_level",):
@@ -668,12 +680,16 @@ def c18_doc(c):
         cur = {"usefixtures_decorator": (b0, lines[b0].index('"') + 1), "parametrize_decorator": (b0 + 1, lines[b0 + 1].index('"') + 1),
                "def_line": (d, lines[d].index("(") + 1), "body_stmt": (d + 1, len(lines[d + 1])), "body_blank": (d + 2, 0)}[role]
     elif role in ("sig_continuation", "sig_end"):
-        body = deco + ["def %s(" % name] + ["    %s," % p for p in declared] + ["    ", "):", "    value = 1"]
+        sp = spell(declared)
+        body = deco + ["def %s(" % name] + ["    %s," % p for p in sp] + ["    ", "):", "    value = 1"]
+        if pstyle in ("posonly",) and role == "sig_end":
+            body = deco + ["def %s(" % name] + ["    %s," % p for p in sp[:-1]] + ["    /", "):", "    value = 1"]
+            sp = sp[:-1]
         lines = head + body + tail
         d = len(head) + len(deco)
-        cur = (d + 1 + len(declared), 4) if role == "sig_continuation" else (d + 2 + len(declared), 0)
+        cur = (d + 1 + len(sp), 4) if role == "sig_continuation" else (d + 2 + len(sp), 0)
     elif role in ("class_header", "method_def", "method_body"):
-        ps = ", ".join(["self"] + declared)
+        ps = ", ".join(["self"] + spell(declared)) if pstyle != "kwonly" else ", ".join(["self"] + spell(declared))
         body = ["class TestK:"] + ["    " + x for x in deco] + ["    def %s(%s):" % (name, ps), "        value = 1", "        other = 2"]
         lines = head + body + tail
         b0 = len(head)
@@ -746,6 +762,12 @@ def check_c18(tier):
             fh.write(SIB_18)
         text, line, col = c18_doc(c)
         tpath = os.path.join(root, "test_e.py")
+        if c.get("host") == "plugin":
+            # the edited document IS the workspace plugin module: its fixtures follow the edited function
+            text = text + "\n\n" + WP_18.split("\n", 3)[3]
+            tpath = os.path.join(root, "plugsrc", "wplug.py")
+            with open(tpath, "w") as fh:
+                fh.write(text)
         srv = lsp.Server()
         try:
             srv.initialize(root)
@@ -776,10 +798,10 @@ def check_c18(tier):
     results = lsp.run_parallel(list(enumerate(cases)), session, workers=8)
     for c, r in zip(cases, results):
         V.count()
-        V.nontriv(json.dumps({k: c[k] for k in ("role", "kind", "scope", "declared", "stacked")}, sort_keys=True))
+        V.nontriv(json.dumps({k: c.get(k) for k in ("role", "kind", "scope", "declared", "stacked", "pstyle", "host")}, sort_keys=True))
         if r is None or "__exception__" in r:
             raise C.ToolError("LSP session failed: %r" % (r,))
-        ex = {"role": c["role"], "kind": c["kind"], "scope": c["scope"], "declared": c["declared"], "stacked": c["stacked"],
+        ex = {"role": c["role"], "kind": c["kind"], "scope": c["scope"], "declared": c["declared"], "stacked": c["stacked"], "param_style": c.get("pstyle"), "edited_document": c.get("host"),
               "cursor": [r.get("line"), r.get("col")], "text": r.get("text")}
         if "error" in r:
             V.violation(dict(ex, error=r["error"]), "server died or did not answer a completion request")
